@@ -198,6 +198,94 @@ fn verifier_signatures(out: &mut UnitResult) {
     }
 }
 
+/// The verifiers of ONE endpoint serve every handshake of that endpoint. Two or three handshakes
+/// (sessions), each a certificate offer followed by a handshake-signature check, run through the
+/// same verifier in EVERY interleaving that keeps each session's own order; every verdict must be
+/// what the same call gives on its own — in particular a signature made with Y's key is never
+/// accepted for X's certificate, whatever another session offered in between.
+fn verifier_sessions(out: &mut UnitResult) {
+    let now = UnixTime::now();
+    let names = vec![NET_NAME.to_string()];
+    let sn = ServerName::try_from(NET_NAME).unwrap();
+    let certs_of = [anemo_cert(X, NET_NAME), anemo_cert(Y, NET_NAME)];
+    let keys = [X, Y];
+    // (certificate owner, signer)
+    let kinds: [(usize, usize, &str); 4] = [(0, 0, "honest X"), (1, 1, "honest Y"), (0, 1, "X's certificate, signature by Y"), (1, 0, "Y's certificate, signature by X")];
+    let whichs = [vc::Which::Client, vc::Which::Server, vc::Which::ExpectedServer(peer_id_of_key(X))];
+    // interleavings of n sessions with two steps each: sequences over session indices in which
+    // each index occurs exactly twice
+    fn interleavings(n: usize) -> Vec<Vec<usize>> {
+        fn rec(left: &mut Vec<usize>, cur: &mut Vec<usize>, acc: &mut Vec<Vec<usize>>) {
+            if left.iter().all(|l| *l == 0) {
+                acc.push(cur.clone());
+                return;
+            }
+            for i in 0..left.len() {
+                if left[i] > 0 {
+                    left[i] -= 1;
+                    cur.push(i);
+                    rec(left, cur, acc);
+                    cur.pop();
+                    left[i] += 1;
+                }
+            }
+        }
+        let mut acc = vec![];
+        rec(&mut vec![2; n], &mut vec![], &mut acc);
+        acc
+    }
+    for which in &whichs {
+        for n in [2usize, 3] {
+            let orders = interleavings(n);
+            let combos = 4usize.pow(n as u32);
+            for combo in 0..combos {
+                let sess: Vec<(usize, usize, &str)> = (0..n).map(|i| kinds[(combo / 4usize.pow(i as u32)) % 4]).collect();
+                for order in &orders {
+                    let mut step = vec![0usize; n];
+                    let mut trace: Vec<String> = vec![];
+                    for &si in order {
+                        let (co, signer, label) = sess[si];
+                        let cert = &certs_of[co];
+                        let message = format!("                                                                TLS 1.3, {} CertificateVerify\0transcript of session {si}", if matches!(which, vc::Which::Client) { "client" } else { "server" });
+                        out.evaluations += 1;
+                        out.transitions += 1;
+                        if step[si] == 0 {
+                            let got = match which {
+                                vc::Which::Client => vc::verify_client_cert(&names, cert, &[], now).is_ok(),
+                                vc::Which::Server => vc::verify_server_cert(&names, None, cert, &[], &sn, now).is_ok(),
+                                vc::Which::ExpectedServer(p) => vc::verify_server_cert(&names, Some(*p), cert, &[], &sn, now).is_ok(),
+                            };
+                            let want = match which {
+                                vc::Which::ExpectedServer(_) => co == 0,
+                                _ => true,
+                            };
+                            trace.push(format!("s{si}({label}): certificate -> {got}"));
+                            if got != want {
+                                out.violation("session-verdict-depends-on-others", format!("{which:?}: {trace:?}: the certificate verdict should be {want}"), json!({"unit": {"kind": "sessions"}, "which": format!("{which:?}"), "trace": trace}));
+                            }
+                        } else {
+                            let sig = certs::ring_key(keys[signer]).sign(message.as_bytes()).as_ref().to_vec();
+                            let got = vc::verify_tls13_signature(which, message.as_bytes(), cert, &dss(0x0807, &sig)).is_ok();
+                            let want = co == signer;
+                            trace.push(format!("s{si}({label}): handshake signature -> {got}"));
+                            if got != want {
+                                out.violation(
+                                    if got { "handshake-signature-wrongly-judged" } else { "session-verdict-depends-on-others" },
+                                    format!("{which:?}: handshakes interleaved on one endpoint's verifier {trace:?}: the last verdict should be {want} (a handshake signature proves possession of the key in the certificate of ITS OWN session only)"),
+                                    json!({"unit": {"kind": "sessions"}, "which": format!("{which:?}"), "trace": trace}),
+                                );
+                            }
+                            out.class(format!("session signature accepted={want}"));
+                        }
+                        step[si] += 1;
+                    }
+                    out.states += 1;
+                }
+            }
+        }
+    }
+}
+
 // ------------------------------------------------------------------------------------------
 // system layer
 // ------------------------------------------------------------------------------------------
@@ -537,7 +625,7 @@ impl Check for C01 {
     }
 
     fn units(&self, tier: Tier) -> Vec<Value> {
-        let mut u = vec![json!({"kind":"signatures","on_death":"verifier-aborts-process"})];
+        let mut u = vec![json!({"kind":"signatures","on_death":"verifier-aborts-process"}), json!({"kind":"sessions","on_death":"verifier-aborts-process"})];
         for part in 0..16 {
             u.push(json!({"kind":"verifier","part":part,"parts":16,"on_death":"verifier-aborts-process"}));
         }
@@ -565,6 +653,7 @@ impl Check for C01 {
     fn run_unit(&self, tier: Tier, unit: &Value, out: &mut UnitResult) {
         match unit["kind"].as_str().unwrap() {
             "signatures" => verifier_signatures(out),
+            "sessions" => verifier_sessions(out),
             "verifier" => verifier_certs(tier, out, unit["part"].as_u64().unwrap() as usize, unit["parts"].as_u64().unwrap() as usize),
             _ => {
                 let u = unit.clone();
@@ -614,6 +703,8 @@ impl Check for C01 {
                 let mut out = UnitResult::default();
                 if k == "signatures" {
                     verifier_signatures(&mut out);
+                } else if k == "sessions" {
+                    verifier_sessions(&mut out);
                 } else {
                     for part in 0..16 {
                         verifier_certs(Tier::Thorough, &mut out, part, 16);
@@ -625,7 +716,7 @@ impl Check for C01 {
     }
 
     fn finish(&self, _tier: Tier, total: &mut UnitResult) -> Map<String, Value> {
-        for need in ["verifier accepted=true", "verifier accepted=false parses=true", "verifier accepted=false parses=false", "signature accepted=true", "dials admitted=true", "dials admitted=false", "dialed admitted=true", "dialed admitted=false", "dialed_pinned_y admitted=true"] {
+        for need in ["verifier accepted=true", "verifier accepted=false parses=true", "verifier accepted=false parses=false", "signature accepted=true", "session signature accepted=false", "dials admitted=true", "dials admitted=false", "dialed admitted=true", "dialed admitted=false", "dialed_pinned_y admitted=true"] {
             if !total.classes.keys().any(|k| k.starts_with(need)) {
                 total.machinery_errors.push(format!("vacuous: class `{need}` missing"));
             }
